@@ -70,6 +70,9 @@ func RegisterIntrinsics(m *Machine) {
 	}
 	out := func(p *Path, s Str) { p.Out = append(p.Out, s) }
 	I["fmt.Printf"] = func(p *Path, c *ssa.CallCommon, a []Val) Val {
+		if f, ok := a[0].(Str); ok && f.Concrete() {
+			p.OutFmt = append(p.OutFmt, f.S)
+		}
 		out(p, p.Sprintf(a[0].(Str), p.variadic(a[1])))
 		return Tuple{i64(0), Iface{}}
 	}
